@@ -151,6 +151,7 @@ template <>
 struct K<asl::Array<Elem>>
 {
 	typedef asl::Array<Elem> H;
+	static void resetNull(H&) {}
 	static bool dup(H& h) { h.dup(); return true; }
 	static const char* name() { return "Array"; }
 	static H make(int tag)
@@ -174,6 +175,7 @@ template <>
 struct K<asl::Map<int, Elem>>
 {
 	typedef asl::Map<int, Elem> H;
+	static void resetNull(H&) {}
 	static bool dup(H& h) { h.dup(); return true; }
 	static const char* name() { return "Map"; }
 	static H make(int tag)
@@ -192,6 +194,7 @@ template <>
 struct K<asl::Dic<Elem>>
 {
 	typedef asl::Dic<Elem> H;
+	static void resetNull(H&) {}
 	static bool dup(H& h) { h.dup(); return true; }
 	static const char* name() { return "Dic"; }
 	static H make(int tag)
@@ -210,6 +213,7 @@ template <>
 struct K<asl::HashMap<int, Elem>>
 {
 	typedef asl::HashMap<int, Elem> H;
+	static void resetNull(H&) {}
 	static bool dup(H& h) { h.dup(); return true; }
 	static const char* name() { return "HashMap"; }
 	static H make(int tag)
@@ -228,6 +232,7 @@ template <>
 struct K<asl::HashDic<Elem>>
 {
 	typedef asl::HashDic<Elem> H;
+	static void resetNull(H&) {}
 	static bool dup(H& h) { h.dup(); return true; }
 	static const char* name() { return "HashDic"; }
 	static H make(int tag)
@@ -246,6 +251,7 @@ template <>
 struct K<asl::Shared<Payload>>
 {
 	typedef asl::Shared<Payload> H;
+	static void resetNull(H& h) { h = (Payload*)0; }
 	static bool dup(H&) { return false; } // no in-place detach in this class
 	static const char* name() { return "Shared"; }
 	static H make(int tag) { return H(new Payload(tag)); }
@@ -258,6 +264,7 @@ template <>
 struct K<Obj>
 {
 	typedef Obj H;
+	static void resetNull(H&) {}
 	static bool dup(H&) { return false; } // no in-place detach in this class
 	static const char* name() { return "SmartObject"; }
 	static H make(int tag) { return Obj(tag); }
@@ -272,6 +279,7 @@ template <>
 struct K<asl::Socket>
 {
 	typedef asl::Socket H;
+	static void resetNull(H&) {}
 	static bool dup(H&) { return false; } // no in-place detach in this class
 	static const char* name() { return "Socket"; }
 	static H make(int) { return asl::Socket(); }
@@ -307,7 +315,7 @@ struct Worker
 	{
 		for (auto& o : ops)
 		{
-			int kind = (int)(std::abs(o.arg(1)) % 7), d = (int)(std::abs(o.arg(2)) % SLOTS), s = (int)(std::abs(o.arg(3)) % SLOTS);
+			int kind = (int)(std::abs(o.arg(1)) % 8), d = (int)(std::abs(o.arg(2)) % SLOTS), s = (int)(std::abs(o.arg(3)) % SLOTS);
 			switch (kind)
 			{
 			case 0:
@@ -346,6 +354,16 @@ struct Worker
 				if (slot[s] && !K<H>::read(*slot[s]))
 					badRead = true;
 				break;
+			case 7:
+				// the handle is reset with a null raw pointer where the class allows it (Shared: h = (T*)0) and then dropped
+				if (slot[d])
+				{
+					K<H>::resetNull(*slot[d]);
+					delete slot[d];
+					slot[d] = 0;
+					obj[d] = -1;
+				}
+				break;
 			case 6:
 				// "makes this array independent of others": the handle leaves the shared object and owns a private copy
 				if (slot[s] && K<H>::dup(*slot[s]))
@@ -372,7 +390,7 @@ void genHandles(Prng& r, Plan& p, int tier)
 		for (int i = 0; i < n; i++)
 		{
 			// bias: most ops touch slot 0, which holds the shared object
-			int kind = (int)r.below(7);
+			int kind = (int)r.below(8);
 			int d = r.below(2) ? 0 : (int)r.below(SLOTS), s = r.below(2) ? 0 : (int)r.below(SLOTS);
 			p.ops.push_back(op("h", {t, kind, d, s}));
 		}
@@ -599,11 +617,11 @@ void runAtomicNum(const Plan& p, const char* tn)
 		if (o.k == "a")
 		{
 			size_t t = (size_t)(std::abs(o.arg(0)) % T);
-			int k = (int)(std::abs(o.arg(1)) % 7), n = (int)(1 + std::abs(o.arg(2)) % 5);
+			int k = (int)(std::abs(o.arg(1)) % 8), n = (int)(1 + std::abs(o.arg(2)) % 5);
 			if (ops[t].size() >= 48)
 				continue;
 			ops[t].push_back(A{k, n});
-			if (k == 0 || k == 1) plus += 1;
+			if (k == 0 || k == 1 || k == 7) plus += 1;
 			if (k == 2 || k == 3) minus += 1;
 			if (k == 4) plus += n;
 			if (k == 5) minus += n;
@@ -626,6 +644,13 @@ void runAtomicNum(const Plan& p, const char* tn)
 				case 4: x += N(a.n); break;
 				case 5: x -= N(a.n); break;
 				case 6: v = (double)~x; break;
+				case 7:
+				{
+					// read-modify-write through the object's own locked accessor, mixed with the operators of other threads
+					auto l = x.locked();
+					*l = *l + N(1);
+					break;
+				}
 				}
 				if (v < lo || v > hi)
 					__sync_fetch_and_add(badp, 1);
